@@ -118,4 +118,27 @@ theorem joinCsv_eq_nil_iff (sep delim : α) (xs : List (List α)) :
     · simp [joinWith, hx, field_ne_nil sep delim x hx]
   | x :: y :: r => simp [joinWith]
 
+/-! ### decoding an (indices, values) pair -/
+
+theorem decode_offsets_aux (xs : List (List α)) :
+    ∀ (pre : List α) (base : Nat), base = pre.length →
+      (((base :: offsetsFrom base xs).zip (offsetsFrom base xs)).map
+        (fun p => slice (pre ++ xs.flatten) p.1 p.2)) = xs := by
+  induction xs with
+  | nil => intro pre base _; simp [offsetsFrom]
+  | cons x xs ih =>
+    intro pre base hb
+    have h1 : slice (pre ++ (x :: xs).flatten) base (base + x.length) = x := by
+      subst hb
+      simp [slice]
+    have h2 := ih (pre ++ x) (base + x.length) (by simp [hb])
+    simp only [List.flatten_cons, ← List.append_assoc] at h1 h2 ⊢
+    simp only [offsetsFrom, List.zip_cons_cons, List.map_cons, h1]
+    rw [h2]
+
+/-- the strings stored by `offsets xs` / `xs.flatten` are `xs` -/
+theorem decode_offsets (xs : List (List α)) : decode (offsets xs) xs.flatten = xs := by
+  have := decode_offsets_aux xs [] 0 rfl
+  simpa [decode, offsets] using this
+
 end Exetera.Spec.CsvLine
